@@ -339,6 +339,15 @@ func (mw *meshWorld) scheduleOperator(count int, from, to time.Duration, kinds [
 				mw.opPartition(i, j, time.Duration(100+arg*10)*time.Millisecond)
 			case "senderr":
 				mw.opSendErr(i, 1+arg%4)
+			case "tunerr":
+				// the tun device refuses the next writes, then traffic towards it follows at once
+				if mw.nodes[i].alive {
+					mw.nodes[i].tun.failSkip = arg % 3
+					mw.nodes[i].tun.failNext += 1 + arg%2
+					for b := 0; b < 2+arg%4; b++ {
+						mw.appSend(j, i, 0)
+					}
+				}
 			case "burst":
 				for b := 0; b < 3+arg%6; b++ {
 					mw.appSend(i, j, 0)
